@@ -56,11 +56,12 @@ plan("C09", [("slash", 12, 90)],
           "jailed power, O(n^2) window bound over the meter log at the end of each world; consumer automaton Idle/Waiting/Backoff over observed sends and acks, "
           "queued = handled + pending; distinct = automaton transitions, replenish/clamp classes")
 
-plan("C13", [("lifecycle", 10, 70), ("valset", 2, 10), ("slash", 2, 10)],
-     minobs={"single-consumer-blocks": 100, "beginblocks-with-lifecycle-events": 50},
+plan("C13", [("lifecycle", 10, 70), ("valset", 2, 10), ("slash", 2, 10), ("keys", 4, 20)],
+     minobs={"single-consumer-blocks": 100, "beginblocks-with-lifecycle-events": 50, "index-entries-pruned-with-their-consumers-own-prune-entry": 10},
      rule="full snapshots of the provider store after BeginBlock, before EndBlock and after EndBlock of every block; every changed key is attributed to a "
           "consumer id by a decoder of the key layout (validated against the repository's prefix table); keys of consumers the block's transactions / due "
-          "lifecycle events do not concern must be untouched, time-queue contents may only move concerned ids; "
+          "lifecycle events do not concern must be untouched, time-queue contents may only move concerned ids; EndBlock pruning removes a key-index entry only together "
+          "with a due prune entry of the same consumer listing that address (or with the removal of its validator from staking); "
           "distinct = (op kinds, phase of the consumer, whether a prefix-related id such as 1/10 exists)")
 
 plan("C14", [("lifecycle", 6, 40), ("valset", 2, 10)], tests=["TestC14Matrix"],
